@@ -101,6 +101,11 @@ def slice(ctx: fw.Ctx) -> fw.Outcome:
     for _ in range(ctx.n(100, 10_000)):
         src = gen.rand_src(rng, p)
         cases.append((src, gen.render(src, rng, p)))
+    # tracks whose every note ends at time zero (one unsustained note / tap chord at tick 0)
+    for lanes in ({0: 0}, {1: 0, 3: 0}):
+        src = gen.rand_src(rng, p)
+        src.tracks = [gen.TrackSrc(2, 1, [gen.NoteGroup(0, dict(lanes), tap=len(lanes) > 1)], [], [])]
+        cases.append((src, gen.render(src, rng, p)))
     # empty track
     src = gen.rand_src(rng, p)
     src.tracks = [gen.TrackSrc(1, 2, [], [(0, 5)], [])]
@@ -108,6 +113,7 @@ def slice(ctx: fw.Ctx) -> fw.Outcome:
     ic.run(ctx, out, cases, project, lambda tl: [(t["tick"], t["sus"]) for t in tl], "sustain shapes",
            lambda src: any(gen.sustain_truth(g).startswith("T") for tr in src.tracks for g in tr.groups))
     extra_checks(ctx, out, cases)
+    ic.stable_under_reads(ctx, out, cases, "sustains")
     return out
 
 
